@@ -1,5 +1,6 @@
 import UsualProofs.C01.OpsLimit
 import UsualProofs.C01.WFBool
+import UsualProofs.C01.NullOff
 /-! Every public operation keeps the structural invariant and the acyclicity of the holder graph. -/
 set_option linter.unusedSimpArgs false
 set_option linter.unusedVariables false
@@ -11,7 +12,7 @@ def Acyclic (s : State) : Prop := ∃ rk : Nat → Nat, Ranked rk s
 /-- the arguments of an operation are objects the caller can hold a pointer to (live user
 objects, never the null context or an internal chunk), and operations that add a holder edge
 keep the graph acyclic: the new holder ranks below the object in the ranking `rk` of the
-current graph.  `talloc_disable_null_tracking` is outside this theorem (see Props). -/
+current graph. -/
 def OpOK (rk : Nat → Nat) (s : State) : Op → Prop
   | .alloc p _ _ _ => UserCtx s p
   | .free o => UserObj s o
@@ -24,7 +25,7 @@ def OpOK (rk : Nat → Nat) (s : State) : Op → Prop
   | .setDtor o _ => UserObj s o
   | .setLimit o _ _ => UserObj s o
   | .nullOn _ => True
-  | .nullOff => False
+  | .nullOff => True
 
 theorem step_wf {rk : Nat → Nat} {s : State} (cfg : Cfg) (hfix : cfg.fixCx = true) (op : Op) (w : WF s)
     (wr : Ranked rk s) (hop : OpOK rk s op)
@@ -47,7 +48,8 @@ theorem step_wf {rk : Nat → Nat} {s : State} (cfg : Cfg) (hfix : cfg.fixCx = t
     obtain ⟨h1, h2⟩ := setDtor_op_wf cfg w wr o d hop; exact ⟨h1, rk, h2⟩
   | setLimit o mx fl => exact setLimit_wf cfg w wr o mx fl hop
   | nullOn fl => exact nullOn_wf cfg w wr fl
-  | nullOff => exact absurd hop id
+  | nullOff =>
+    obtain ⟨h1, h2⟩ := nullOff_wf cfg hfix w wr hoof hstuck; exact ⟨h1, rk, h2⟩
 
 theorem wf_empty : WF {} := by
   rw [← wfOK_iff]; decide
